@@ -21,19 +21,19 @@ pub(crate) fn validate(input: &DataType) -> Result<()> {
 
     validate_error_instrs(input, attrs, &mut errors);
 
-    validate_struct_attrs(attrs.iter_for_kind_core(&Kind::FromOwned, false), false, &mut errors);
-    validate_struct_attrs(attrs.iter_for_kind_core(&Kind::FromRef, false), false, &mut errors);
-    validate_struct_attrs(attrs.iter_for_kind_core(&Kind::OwnedInto, false), false, &mut errors);
-    validate_struct_attrs(attrs.iter_for_kind_core(&Kind::RefInto, false), false, &mut errors);
-    validate_struct_attrs(attrs.iter_for_kind_core(&Kind::OwnedIntoExisting, false), false, &mut errors);
-    validate_struct_attrs(attrs.iter_for_kind_core(&Kind::RefIntoExisting, false), false, &mut errors);
+    validate_struct_attrs(attrs.iter_for_kind_core(&Kind::FromOwned, false), false, false, &mut errors);
+    validate_struct_attrs(attrs.iter_for_kind_core(&Kind::FromRef, false), false, false, &mut errors);
+    validate_struct_attrs(attrs.iter_for_kind_core(&Kind::OwnedInto, false), false, false, &mut errors);
+    validate_struct_attrs(attrs.iter_for_kind_core(&Kind::RefInto, false), false, false, &mut errors);
+    validate_struct_attrs(attrs.iter_for_kind_core(&Kind::OwnedIntoExisting, false), false, true, &mut errors);
+    validate_struct_attrs(attrs.iter_for_kind_core(&Kind::RefIntoExisting, false), false, true, &mut errors);
 
-    validate_struct_attrs(attrs.iter_for_kind_core(&Kind::FromOwned, true), true, &mut errors);
-    validate_struct_attrs(attrs.iter_for_kind_core(&Kind::FromRef, true), true, &mut errors);
-    validate_struct_attrs(attrs.iter_for_kind_core(&Kind::OwnedInto, true), true, &mut errors);
-    validate_struct_attrs(attrs.iter_for_kind_core(&Kind::RefInto, true), true, &mut errors);
-    validate_struct_attrs(attrs.iter_for_kind_core(&Kind::OwnedIntoExisting, true), true, &mut errors);
-    validate_struct_attrs(attrs.iter_for_kind_core(&Kind::RefIntoExisting, true), true, &mut errors);
+    validate_struct_attrs(attrs.iter_for_kind_core(&Kind::FromOwned, true), true, false, &mut errors);
+    validate_struct_attrs(attrs.iter_for_kind_core(&Kind::FromRef, true), true, false, &mut errors);
+    validate_struct_attrs(attrs.iter_for_kind_core(&Kind::OwnedInto, true), true, false, &mut errors);
+    validate_struct_attrs(attrs.iter_for_kind_core(&Kind::RefInto, true), true, false, &mut errors);
+    validate_struct_attrs(attrs.iter_for_kind_core(&Kind::OwnedIntoExisting, true), true, true, &mut errors);
+    validate_struct_attrs(attrs.iter_for_kind_core(&Kind::RefIntoExisting, true), true, true, &mut errors);
 
     let type_paths = attrs.attrs.iter().map(|x| &x.core.ty).collect::<HashSet<_>>();
 
@@ -187,7 +187,7 @@ fn validate_member_error_instrs(input: &DataType, attrs: &MemberAttrs, errors: &
     }
 }
 
-fn validate_struct_attrs<'a, I: Iterator<Item = &'a TraitAttrCore>>(attrs: I, fallible: bool, errors: &mut HashMap<String, Span>) {
+fn validate_struct_attrs<'a, I: Iterator<Item = &'a TraitAttrCore>>(attrs: I, fallible: bool, into_existing: bool, errors: &mut HashMap<String, Span>) {
     let mut unique_ident = HashSet::new();
     for attr in attrs {
         if !unique_ident.insert(&attr.ty) {
@@ -469,7 +469,8 @@ fn validate_variant_instrs(input: &Variant, data_type_attrs_by_kind: &[(&TraitAt
             continue;
         }
 
-        let has_attr = input.attrs.applicable_attr(kind, *fallible, &data_type_attr.ty).is_some();
+        let attr = input.attrs.applicable_attr(kind, *fallible, &data_type_attr.ty);
+        let has_attr = attr.is_some();
         let has_lit = input.attrs.lit(&data_type_attr.ty).is_some();
         let has_pat = input.attrs.pat(&data_type_attr.ty).is_some();
 
@@ -477,7 +478,8 @@ fn validate_variant_instrs(input: &Variant, data_type_attrs_by_kind: &[(&TraitAt
             (_, false, false) => true,
             (false, true, false) => true,
             (false, false, true) => kind.is_from(),
-            (true, false, true) => !kind.is_from(),
+            // a pattern cannot be converted back: the instruction has to say what the variant becomes
+            (true, false, true) => !kind.is_from() && attr.is_some_and(|x| x.has_action()),
             _ => false,
         };
 
